@@ -118,6 +118,13 @@ func setupUniverse(timeT types.Type) {
 	generic1("refof", func(tp *types.TypeParam) types.Type { return mathintType })
 	generic1("capof", func(tp *types.TypeParam) types.Type { return it })
 	generic1("lenof", func(tp *types.TypeParam) types.Type { return it })
+	generic1("every", func(tp *types.TypeParam) types.Type { return tp })
+	{
+		// hastype(x, y): the dynamic type of the interface value x is the (static) type of y
+		ta := types.NewTypeParam(types.NewTypeName(token.NoPos, nil, "A", nil), anyT)
+		tb := types.NewTypeParam(types.NewTypeName(token.NoPos, nil, "B", nil), anyT)
+		types.Universe.Insert(types.NewFunc(token.NoPos, nil, "hastype", types.NewSignatureType(nil, nil, []*types.TypeParam{ta, tb}, types.NewTuple(v("x", ta), v("y", tb)), types.NewTuple(v("", bt)), false)))
+	}
 	{
 		tk := types.NewTypeParam(types.NewTypeName(token.NoPos, nil, "K", nil), types.Universe.Lookup("comparable").Type())
 		types.Universe.Insert(types.NewFunc(token.NoPos, nil, "visited", types.NewSignatureType(nil, nil, []*types.TypeParam{tk}, types.NewTuple(v("k", tk)), types.NewTuple(v("", bt)), false)))
@@ -129,8 +136,9 @@ func setupUniverse(timeT types.Type) {
 	}
 	fsig := types.NewSignatureType(nil, nil, nil, types.NewTuple(v("i", it)), types.NewTuple(v("", bt)), false)
 	{
-		fsig1 := types.NewSignatureType(nil, nil, nil, types.NewTuple(v("i", it)), types.NewTuple(v("", bt)), false)
-		types.Universe.Insert(types.NewFunc(token.NoPos, nil, "all__", types.NewSignatureType(nil, nil, nil, types.NewTuple(v("f", fsig1)), types.NewTuple(v("", bt)), false)))
+		tb := types.NewTypeParam(types.NewTypeName(token.NoPos, nil, "B", nil), anyT)
+		fsig1 := types.NewSignatureType(nil, nil, nil, types.NewTuple(v("i", tb)), types.NewTuple(v("", bt)), false)
+		types.Universe.Insert(types.NewFunc(token.NoPos, nil, "all__", types.NewSignatureType(nil, nil, []*types.TypeParam{tb}, types.NewTuple(v("f", fsig1)), types.NewTuple(v("", bt)), false)))
 	}
 	for _, q := range []string{"forall__", "exists__"} {
 		sig := types.NewSignatureType(nil, nil, nil, types.NewTuple(v("lo", it), v("hi", it), v("f", fsig)), types.NewTuple(v("", bt)), false)
@@ -578,10 +586,7 @@ func (vc *VC) verifyFunc(fi *FuncInfo) (res *FuncResult) {
 			}
 			ri := *baseRI
 			ri.Results = r.vals
-			parts := []*Term{g}
-			if g.Op == "and" {
-				parts = g.Args
-			}
+			parts := splitGoal(g)
 			facts := append([]*Term(nil), r.st.pc...)
 			for pk, pg := range parts {
 				nm := fmt.Sprintf("%s/ensures:%s@return%d", fi.Short, label, k)
